@@ -28,8 +28,8 @@ RULE = (
     "schedule with >= 1 pre-emption or a raising body; distinct by trace hash (thread, label sequence)."
 )
 BOUND = {
-    "quick": "9 programs x pre-emption bound 2 (cap 600 schedules each) + 120 random schedules each; 12 stress trials; manual sequences of length <= 5",
-    "thorough": "24 programs x pre-emption bound 3 (cap 12000 schedules each) + 4000 random schedules each; 320 stress trials; manual sequences of length <= 6",
+    "quick": "11 programs x pre-emption bound 2 (cap 600 schedules each) + 120 random schedules each; 12 stress trials; manual sequences of length <= 5",
+    "thorough": "26 programs x pre-emption bound 3 (cap 12000 schedules each) + 4000 random schedules each; 320 stress trials; manual sequences of length <= 6",
 }
 ASSUMPTIONS = [
     "one OutputStream.write is atomic (a terminal write of a short string); pre-emption inside a write is not explored",
@@ -46,6 +46,7 @@ def programs(tier):
         [], [("work", 0.15)], [("work", 0.15), ("msg", "l"), ("work", 0.15)], [("msg", "s"), ("msg", "l")], [("work", 0.4), ("msg", "s")],
         [("work", 0.15), ("raise", "ValueError")], [("msg", "l"), ("raise", "KeyboardInterrupt")], [("work", 0.03), ("raise", "SystemExit")],
         [("work", 0.15), ("msg", "l"), ("work", 0.03), ("msg", "s")],
+        [("work", 0.03), ("raise", "BodyCancelled")], [("msg", "s"), ("raise", "GeneratorExit")],
     ]
     if tier == "quick":
         return base
@@ -58,6 +59,12 @@ def programs(tier):
     ]
     return base + extra
 
+
+class BodyCancelled(BaseException):
+    """A BaseException that is none of the interpreter's own (like asyncio.CancelledError)."""
+
+
+RAISABLE = {"ValueError": ValueError, "KeyboardInterrupt": KeyboardInterrupt, "SystemExit": SystemExit, "BodyCancelled": BodyCancelled, "GeneratorExit": GeneratorExit}
 
 FRAME = re.compile(r"^ (.) (.*)$")
 
@@ -129,7 +136,7 @@ def run_schedule(lab, sched, program, prefix, rng=None, max_steps=600):
                     elif kind == "work":
                         time.sleep(arg)
                     else:
-                        raise {"ValueError": ValueError, "KeyboardInterrupt": KeyboardInterrupt, "SystemExit": SystemExit}[arg]("body raised")
+                        raise RAISABLE[arg]("body raised")
         except sched.Killed:
             raise
         except BaseException as e:
@@ -274,7 +281,7 @@ def run_stress(sh, trials):
         st = YieldStream()
         out = Output(st, AnsiFormatter(forced=True))
         pi = ProgressIndicator(out, interval=1)
-        kind = rng.choice(["normal", "normal", "ValueError", "SystemExit"])
+        kind = rng.choice(["normal", "normal", "ValueError", "SystemExit", "BodyCancelled"])
         msgs = {"start-msg", "end-msg"}
         plan_msgs = [("message number %d %s" % (i, "x" * rng.randint(0, 20))).strip() for i in range(rng.randint(3, 12))]
         pauses = [rng.choice([0, 0.001, 0.003]) for _ in plan_msgs]
@@ -287,7 +294,7 @@ def run_stress(sh, trials):
                         pi.set_message(m)
                         time.sleep(pause)
                     if kind != "normal":
-                        raise {"ValueError": ValueError, "SystemExit": SystemExit}[kind]("body raised")
+                        raise RAISABLE[kind]("body raised")
             except BaseException:
                 pass
 
